@@ -93,6 +93,14 @@ EX["import"] = [ENV, [
     pom(b"b", b"inner", b"1", packaging=b"pom", mgmt=[dep(b"g", b"a", b"0"), dep(b"g", b"z", b"0")])], []]
 
 
+# a property defined with an empty value: defined, overrides the parent's value (the classifier goes away)
+EX["empty"] = [ENV, [
+    pom(b"", b"app", b"", parent=[b"p", b"par", b"1"], props=[(b"nc", b""), (b"bc", b"")],
+        deps=[dep(b"g", b"native", c=b"${nc}"), dep(b"g", b"lib", b"2${bc}", c=b"${bc}")]),
+    pom(b"p", b"par", b"1", packaging=b"pom", props=[(b"nc", b"linux"), (b"lv", b"1.2.3")],
+        mgmt=[dep(b"g", b"native", b"${lv}", c=b"${nc}")])], []]
+
+
 def coq_bytes(b):
     return "[" + ";".join(str(c) for c in b) + "]"
 
